@@ -8,7 +8,8 @@ THEOREMS = ["Rva.markLoop_own", "Rva.mark_reachable_owner", "Rva.mem_insNat",
             "Rva.markLoop_closed", "Rva.mark_complete", "Rva.mark_sound", "Rva.body_is_reachable_set",
             "Rva.markStep_body", "Rva.function_entries_are_call_targets", "Rva.called_labels_are_entries",
             "Rva.entry_iff_called", "Rva.markLoop_terminates", "Rva.markAllDone_true",
-            "Rva.directions_outSmall", "Rva.pipeline_markup_terminates"]
+            "Rva.directions_outSmall", "Rva.pipeline_markup_terminates",
+            "Rva.overlapping_report_sound", "Rva.overlapping_reported"]
 
 
 def oracle(src, blk, rng):
@@ -30,7 +31,7 @@ SHARING = {}
 
 
 def run(res, tier, seed):
-    proof_ok = proof_stage(res, "Rva.Proofs.C11d", THEOREMS, extra_modules=["Rva.Proofs.C11", "Rva.Proofs.C11b", "Rva.Proofs.C11c"])
+    proof_ok = proof_stage(res, "Rva.Proofs.C11d", THEOREMS, extra_modules=["Rva.Proofs.C11", "Rva.Proofs.C11b", "Rva.Proofs.C11c", "Rva.Proofs.C05b"])
     res.cov["rule"] = ("generated programs + corpus (several labels per entry, shared tails, recursion, multiple "
                        "returns, handlers with ret and uret); on the real finished graph: function entries = "
                        "called labels, sharing reported iff it exists (a tail shared only through jumps is known finding F-16), "
